@@ -1,3 +1,286 @@
 package main
 
-func selftest(args []string) int { return die2("selftest: not implemented yet") }
+import (
+	"bytes"
+	"crypto/sha256"
+	"fmt"
+	"os"
+	"os/exec"
+	"path/filepath"
+	"sort"
+	"strconv"
+	"strings"
+	"sync"
+	"time"
+)
+
+// selftest transparency: the repository's own test suite must pass on the instrumented copy (hooks
+//   detached), and for a sample of run seeds the event logs of the sequential worlds must be identical
+//   between the instrumented build and a build against the plain (uninstrumented) tree.
+// selftest determinism: every sampled run seed is executed in separate processes twice at each of
+//   GOMAXPROCS 1, 4 and 16 (plain and -race builds) and the full event logs (plan, every op result,
+//   every context switch, every fault, step counts, verdict) must be byte-identical.
+
+var allProps = []string{"C01", "C02", "C03", "C04", "C05", "C06", "C07", "C08", "C09", "C10", "C11", "C12", "C13", "C14", "C15", "C16", "C17", "C18"}
+
+func buildPlain() (string, error) {
+	// a copy of the working tree with only the simrt package added (nothing rewritten)
+	dst := filepath.Join(scratchRoot, "plain")
+	if _, err := copyTree(repoDir(), dst, false); err != nil {
+		return "", err
+	}
+	vd := verifDir()
+	if err := copyFile(filepath.Join(vd, "simrt", "simrt.go"), filepath.Join(dst, "simrt", "simrt.go")); err != nil {
+		return "", err
+	}
+	if err := os.WriteFile(filepath.Join(dst, "simrt", "sites.go"), []byte("package simrt\n\nconst NSites = 0\n"), 0o644); err != nil {
+		return "", err
+	}
+	mod := fmt.Sprintf("module godsimworker\n\ngo 1.21\n\nrequire %s v2.0.0-00010101000000-000000000000\n\nreplace %s => %s\n", modPath, modPath, dst)
+	modfile := filepath.Join(scratchRoot, "plain.mod")
+	if err := os.WriteFile(modfile, []byte(mod), 0o644); err != nil {
+		return "", err
+	}
+	bin := filepath.Join(scratchRoot, "worker-plain")
+	cmd := exec.Command("go", "build", "-modfile="+modfile, "-trimpath", "-o", bin, ".")
+	cmd.Dir = filepath.Join(vd, "worker")
+	cmd.Env = goEnv()
+	if out, err := cmd.CombinedOutput(); err != nil {
+		return "", fmt.Errorf("go build plain worker: %v\n%s", err, out)
+	}
+	return bin, nil
+}
+
+func traceRun(bin, prop string, idx int, gomaxprocs int, stripSteps bool) (string, error) {
+	cmd := exec.Command(bin, "-prop", prop, "-seed", "1", "-trace", strconv.Itoa(idx), "-tier", "quick")
+	cmd.Env = append(os.Environ(), "GORACE=halt_on_error=0", "GOMAXPROCS="+strconv.Itoa(gomaxprocs))
+	var out, eb bytes.Buffer
+	cmd.Stdout, cmd.Stderr = &out, &eb
+	done := make(chan error, 1)
+	if err := cmd.Start(); err != nil {
+		return "", err
+	}
+	go func() { done <- cmd.Wait() }()
+	select {
+	case err := <-done:
+		if err != nil {
+			return "", fmt.Errorf("%s run %d: %v\n%s", prop, idx, err, tail(eb.String(), 20))
+		}
+	case <-time.After(120 * time.Second):
+		cmd.Process.Kill()
+		return "", fmt.Errorf("%s run %d: timeout", prop, idx)
+	}
+	s := out.String()
+	if stripSteps {
+		var keep []string
+		for _, l := range strings.Split(s, "\n") {
+			if strings.HasPrefix(l, "steps=") {
+				continue
+			}
+			keep = append(keep, l)
+		}
+		s = strings.Join(keep, "\n")
+	}
+	return s, nil
+}
+
+func selftest(args []string) int {
+	which := "all"
+	seeds := 32
+	for i := 0; i < len(args); i++ {
+		switch args[i] {
+		case "transparency", "determinism", "all":
+			which = args[i]
+		case "--seeds":
+			if i+1 < len(args) {
+				seeds, _ = strconv.Atoi(args[i+1])
+				i++
+			}
+		}
+	}
+	defer cleanup()
+	rc := 0
+	if which == "transparency" || which == "all" {
+		if r := selftestTransparency(seeds); r != 0 {
+			rc = r
+		}
+		cleanup()
+		cleanupOnce = sync.Once{}
+	}
+	if which == "determinism" || which == "all" {
+		if r := selftestDeterminism(seeds); r != 0 {
+			rc = r
+		}
+	}
+	return rc
+}
+
+func selftestTransparency(seeds int) int {
+	t0 := time.Now()
+	bin, instr, err := build(false, true)
+	if err != nil {
+		return die2("%v", err)
+	}
+	// 1. the repository's own tests on the instrumented copy
+	cmd := exec.Command("go", "test", "-vet=off", "-count=1", "-timeout", "10m", "./...")
+	cmd.Dir = filepath.Join(scratchRoot, "repo")
+	cmd.Env = goEnv()
+	out, err := cmd.CombinedOutput()
+	okPk, fail := 0, 0
+	for _, l := range strings.Split(string(out), "\n") {
+		if strings.HasPrefix(l, "ok ") {
+			okPk++
+		}
+		if strings.HasPrefix(l, "FAIL") || strings.HasPrefix(l, "--- FAIL") {
+			fail++
+		}
+	}
+	if err != nil || fail > 0 {
+		fmt.Println(tail(string(out), 40))
+		return die2("transparency: the repository's own tests FAIL on the instrumented copy")
+	}
+	fmt.Printf("transparency: repository test suite passes on the instrumented copy (%d packages ok, %d yield sites, %d map-range sites)\n", okPk, len(instr.Sites), len(instr.MapSites))
+	// 2. instrumented vs plain event logs of the sequential worlds
+	plain, err := buildPlain()
+	if err != nil {
+		return die2("%v", err)
+	}
+	type job struct {
+		prop string
+		idx  int
+	}
+	var jobs []job
+	for _, p := range allProps {
+		if p == "C18" || p == "C07" {
+			continue // C18 needs yield sites to schedule; C07's traces are the same worlds as C01/C02
+		}
+		for i := 0; i < seeds; i++ {
+			jobs = append(jobs, job{p, i})
+		}
+	}
+	var mu sync.Mutex
+	var diffs []string
+	var wg sync.WaitGroup
+	sem := make(chan struct{}, 16)
+	for _, j := range jobs {
+		wg.Add(1)
+		sem <- struct{}{}
+		go func(j job) {
+			defer wg.Done()
+			defer func() { <-sem }()
+			a, e1 := traceRun(bin, j.prop, j.idx, 2, true)
+			b, e2 := traceRun(plain, j.prop, j.idx, 2, true)
+			a, b = mapOrderFree(a), mapOrderFree(b)
+			if e1 != nil || e2 != nil || a != b {
+				mu.Lock()
+				diffs = append(diffs, fmt.Sprintf("%s run %d (%v %v)", j.prop, j.idx, e1, e2))
+				mu.Unlock()
+			}
+		}(j)
+	}
+	wg.Wait()
+	if len(diffs) > 0 {
+		sort.Strings(diffs)
+		fmt.Println(strings.Join(diffs[:min(len(diffs), 20)], "\n"))
+		return die2("transparency: %d of %d event logs differ between the instrumented and the plain build", len(diffs), len(jobs))
+	}
+	fmt.Printf("transparency: %d event logs (16 properties x %d run seeds) identical between instrumented and plain builds (%.0fs)\n", len(jobs), seeds, time.Since(t0).Seconds())
+	return 0
+}
+
+func selftestDeterminism(seeds int) int {
+	t0 := time.Now()
+	rcAll := 0
+	for _, race := range []bool{false, true} {
+		bin, _, err := build(race, false)
+		if err != nil {
+			return die2("%v", err)
+		}
+		type job struct {
+			prop string
+			idx  int
+		}
+		var jobs []job
+		for _, p := range allProps {
+			if race && p != "C18" && p != "C01" && p != "C12" {
+				continue // the -race build is what C18 uses; two more worlds as a cross-check
+			}
+			if !race && p == "C18" {
+				// C18 without the detector still schedules deterministically: keep it
+			}
+			for i := 0; i < seeds; i++ {
+				jobs = append(jobs, job{p, i})
+			}
+		}
+		var mu sync.Mutex
+		var diffs []string
+		procs := 0
+		var wg sync.WaitGroup
+		sem := make(chan struct{}, 16)
+		for _, j := range jobs {
+			wg.Add(1)
+			sem <- struct{}{}
+			go func(j job) {
+				defer wg.Done()
+				defer func() { <-sem }()
+				var ref [32]byte
+				first := true
+				for _, gmp := range []int{1, 4, 16} {
+					for rep := 0; rep < 2; rep++ {
+						out, err := traceRun(bin, j.prop, j.idx, gmp, false)
+						h := sha256.Sum256([]byte(out))
+						mu.Lock()
+						procs++
+						if err != nil {
+							diffs = append(diffs, fmt.Sprintf("%s run %d: %v", j.prop, j.idx, err))
+						} else if first {
+							ref, first = h, false
+						} else if h != ref {
+							diffs = append(diffs, fmt.Sprintf("%s run %d differs at GOMAXPROCS=%d rep %d", j.prop, j.idx, gmp, rep))
+						}
+						mu.Unlock()
+					}
+				}
+			}(j)
+		}
+		wg.Wait()
+		if len(diffs) > 0 {
+			sort.Strings(diffs)
+			fmt.Println(strings.Join(diffs[:min(len(diffs), 20)], "\n"))
+			rcAll = die2("determinism (race=%v): %d divergent event logs", race, len(diffs))
+		} else {
+			fmt.Printf("determinism (race=%v): %d run seeds x 2 executions x GOMAXPROCS{1,4,16} = %d processes, all event logs byte-identical\n", race, len(jobs), procs)
+		}
+		cleanup()
+		cleanupOnce = sync.Once{}
+	}
+	fmt.Printf("determinism: done in %.0fs\n", time.Since(t0).Seconds())
+	return rcAll
+}
+
+// mapOrderFree cuts an event log at the first load of a run whose outcome may legally depend on Go's
+// map iteration order (which the plain build does not own): loads into bidirectional maps (several
+// keys for one value: any one may win) and into containers with a coarsened comparator (several keys
+// of one class: any one may win).
+func mapOrderFree(log string) string {
+	lines := strings.Split(log, "\n")
+	if len(lines) == 0 {
+		return log
+	}
+	plan := lines[0]
+	coarse := strings.Contains(plan, `"kind":"hashbidimap"`) || strings.Contains(plan, `"kind":"treebidimap"`)
+	for _, c := range []string{"div9", "mod5", "len", "fold"} {
+		if strings.Contains(plan, `"cmp":"`+c+`"`) || strings.Contains(plan, `"vcmp":"`+c+`"`) {
+			coarse = true
+		}
+	}
+	if !coarse {
+		return log
+	}
+	for i, l := range lines {
+		if strings.HasPrefix(l, "op ") && (strings.Contains(l, " Load ") || strings.Contains(l, " FromJSON ") || strings.Contains(l, " Restart ")) {
+			return strings.Join(lines[:i], "\n")
+		}
+	}
+	return log
+}
